@@ -70,6 +70,25 @@ Definition list_seg (s : bytes) : lseg :=
   | None => if bytes_eqb s dash then LAppend else LBad
   end.
 
+(* A datamodel.PathSegment is stored either as a string (ParsePath, PathSegmentOfString) or as an int
+   (PathSegmentOfInt).  focusedTransform reads a segment only through String(), Index() and Equals():
+   String() of an int-stored i >= 0 is FormatInt(i), its Index() is i (= ParseInt of that rendering,
+   lemma parse_int_dec), and Equals() on a string-stored map key compares the rendered strings.  A
+   negative int is indistinguishable from the string-stored "" (containsString() is "i < 0").  So a
+   path is modelled by the list of its rendered segments; [xseg] is what the harness builds. *)
+Inductive xseg := SegS (s : bytes) | SegI (i : Z).
+Fixpoint dec_digits (fuel : nat) (n : N) (acc : bytes) : bytes :=
+  match fuel with
+  | O => acc
+  | S fu => let d := (48 + n mod 10)%N in
+            if (n <? 10)%N then d :: acc else dec_digits fu (n / 10) (d :: acc)
+  end.
+(* strconv.FormatInt(i, 10) for i >= 0 *)
+Definition dec_of_Z (z : Z) : bytes := dec_digits 20 (Z.to_N z) [].
+Definition xseg_string (x : xseg) : bytes :=
+  match x with SegS s => s | SegI i => if i <? 0 then [] else dec_of_Z i end.
+Definition render_path (p : list xseg) : path := map xseg_string p.
+
 (* ---------------------------------------------------------------- outcomes *)
 Inductive xerr :=
 | EScalar     (* "parent position ... was a scalar, cannot go deeper" *)
@@ -309,6 +328,10 @@ Section Model.
         do sw <- ft fuel (Some root) (ARoot (kind_of root)) p (st, []);
         match fst sw with Put v => Ok (v, snd sw) | Skip => Err EPanic end
     end.
+
+  (* the same, for a path given with the storage form of every segment *)
+  Definition focused_transform_segs (fuel : nat) (st : store) (root : dm) (p : list xseg)
+    : res xerr (dm * world) := focused_transform fuel st root (render_path p).
 
   (* ================================================================ SPEC *)
   (* The link-expanded tree: [dm] in which a link may carry the expansion of its block. *)
